@@ -1,5 +1,576 @@
-//! Spline properties (C02, C03, C07, C15, C16 and the spline part of C06).
+//! Spline properties: C02 (interpolates, piecewise cubic, C2), C03 (boundary conditions),
+//! C16 (polynomial reproduction), C07 (periodicity), C15 (units / linearity), the spline part
+//! of C06.  Every oracle works on the implementation's own exact (XRat) outputs.
+use crate::gen::*;
+use crate::json::{obj, s, J};
+use crate::lin::{bracket_scan, eps32, eps64, vals, vmax, within};
 use crate::out::Report;
 use crate::rng::Rng;
+use crate::scen::*;
+use crate::xrat::{arena_reset, Val, XRat};
+use crate::Cfg;
+use ndarray::{Array1, IxDyn};
+use ndarray_interp::interp1d::cubic_spline::{BoundaryCondition, CubicSpline, RowBoundary};
+use ndarray_interp::interp1d::Interp1DBuilder;
+use std::panic::{catch_unwind, AssertUnwindSafe};
 
-pub fn c06_spline(_rep: &mut Report, _rng: &mut Rng, _thorough: bool, _ncases: usize) {}
+// ---------------------------------------------------------------- exact linear algebra
+/// solve a small dense system exactly (Gaussian elimination with row swaps)
+pub fn solve_linear(mut a: Vec<Vec<Val>>, mut b: Vec<Val>) -> Option<Vec<Val>> {
+    let n = b.len();
+    for c in 0..n {
+        let p = (c..n).find(|&r| a[r][c].sign() != 0)?;
+        a.swap(c, p);
+        b.swap(c, p);
+        for r in (c + 1)..n {
+            if a[r][c].sign() == 0 {
+                continue;
+            }
+            let f = a[r][c].div(&a[c][c]);
+            for k in c..n {
+                let t = a[c][k].mul(&f);
+                a[r][k] = a[r][k].sub(&t);
+            }
+            let t = b[c].mul(&f);
+            b[r] = b[r].sub(&t);
+        }
+    }
+    let mut x = vec![Val::int(0); n];
+    for r in (0..n).rev() {
+        let mut acc = b[r].clone();
+        for k in (r + 1)..n {
+            acc = acc.sub(&a[r][k].mul(&x[k]));
+        }
+        x[r] = acc.div(&a[r][r]);
+    }
+    Some(x)
+}
+
+/// coefficients c0..c3 of the cubic in u through four points (u_k, v_k)
+pub fn fit_cubic(pts: &[(Val, Val)]) -> Option<Vec<Val>> {
+    let a: Vec<Vec<Val>> = pts.iter().map(|(u, _)| vec![Val::int(1), u.clone(), u.mul(u), u.mul(u).mul(u)]).collect();
+    let b: Vec<Val> = pts.iter().map(|(_, v)| v.clone()).collect();
+    solve_linear(a, b)
+}
+pub fn poly_eval(c: &[Val], u: &Val) -> Val {
+    let mut acc = Val::int(0);
+    for k in (0..c.len()).rev() {
+        acc = acc.mul(u).add(&c[k]);
+    }
+    acc
+}
+pub fn poly_d1(c: &[Val], u: &Val) -> Val {
+    // c1 + 2 c2 u + 3 c3 u^2
+    c[1].add(&c[2].mul(&Val::int(2)).mul(u)).add(&c[3].mul(&Val::int(3)).mul(u).mul(u))
+}
+pub fn poly_d2(c: &[Val], u: &Val) -> Val {
+    c[2].mul(&Val::int(2)).add(&c[3].mul(&Val::int(6)).mul(u))
+}
+
+// ---------------------------------------------------------------- generation
+
+pub fn gen_single(rng: &mut Rng) -> Single {
+    match rng.below(5) {
+        0 => Single::NotAKnot,
+        1 => Single::Natural,
+        2 => Single::Clamped,
+        3 => Single::FirstDeriv(rng.range(-24, 24) as f64 * 0.25),
+        _ => Single::SecondDeriv(rng.range(-24, 24) as f64 * 0.25),
+    }
+}
+pub fn gen_rowbc(rng: &mut Rng) -> RowBc {
+    match rng.below(6) {
+        0 => RowBc::NotAKnot,
+        1 => RowBc::Natural,
+        2 => RowBc::Clamped,
+        _ => RowBc::Mixed(gen_single(rng), gen_single(rng)),
+    }
+}
+pub fn gen_bc(rng: &mut Rng, trail: &[usize], allow_periodic: bool) -> Bc {
+    let lanes: usize = trail.iter().product();
+    match rng.below(8) {
+        0 => Bc::NotAKnot,
+        1 => Bc::Natural,
+        2 => Bc::Clamped,
+        3 if allow_periodic => Bc::Periodic,
+        _ => {
+            let mut shape = vec![1];
+            shape.extend_from_slice(trail);
+            Bc::Individual((0..lanes).map(|_| gen_rowbc(rng)).collect(), shape)
+        }
+    }
+}
+
+pub struct SplineOpts {
+    pub nmax: usize,
+    pub ext: bool,
+    pub allow_periodic: bool,
+    pub force_bc: Option<Bc>,
+    pub outside: bool,
+}
+
+/// the per-lane (left, right) single conditions a Bc denotes (None = Periodic)
+pub fn lane_conditions(bc: &Bc, lane: usize) -> Option<(Single, Single)> {
+    let row = |rb: &RowBc| match rb {
+        RowBc::NotAKnot => (Single::NotAKnot, Single::NotAKnot),
+        RowBc::Natural => (Single::Natural, Single::Natural),
+        RowBc::Clamped => (Single::Clamped, Single::Clamped),
+        RowBc::Mixed(l, r) => (l.clone(), r.clone()),
+    };
+    match bc {
+        Bc::NotAKnot => Some((Single::NotAKnot, Single::NotAKnot)),
+        Bc::Natural => Some((Single::Natural, Single::Natural)),
+        Bc::Clamped => Some((Single::Clamped, Single::Clamped)),
+        Bc::Periodic => None,
+        Bc::Individual(v, _) => Some(row(&v[lane])),
+    }
+}
+
+pub fn gen_spline_scen(rng: &mut Rng, o: &SplineOpts) -> (Scen1, String) {
+    let n = match rng.below(6) {
+        0 => 3,
+        1 => 4,
+        2 => 5,
+        _ => rng.range(3, o.nmax as i64) as usize,
+    };
+    let default_axis = rng.chance(1, 6);
+    let (axv, class) = if default_axis { ((0..n).map(|i| i as f64).collect::<Vec<_>>(), "default-axis") } else { gen_spline_axis(rng, n) };
+    let trail = gen_trail(rng);
+    let lanes: usize = trail.iter().product();
+    let mut rows = gen_rows(rng, n, lanes, true);
+    let bc = o.force_bc.clone().unwrap_or_else(|| gen_bc(rng, &trail, o.allow_periodic));
+    let bc = match bc {
+        Bc::Individual(_, _) if o.force_bc.is_some() => bc,
+        b => b,
+    };
+    if bc == Bc::Periodic {
+        rows[n - 1] = rows[0].clone();
+    }
+    // 5 abscissae per interval (the oracle uses whatever abscissae it gets)
+    let mut queries = vec![];
+    for w in axv.windows(2) {
+        let hh = w[1] - w[0];
+        for t in [0.0, 0.25, 0.5, 0.75, 1.0] {
+            let q = w[0] + hh * t;
+            if q >= axv[0] && q <= axv[n - 1] {
+                queries.push(q);
+            }
+        }
+    }
+    if o.outside {
+        let span = axv[n - 1] - axv[0];
+        for k in [0.125, 0.5, 1.0, 3.0] {
+            queries.push(axv[0] - span * k);
+            queries.push(axv[n - 1] + span * k);
+        }
+        queries.push(next_down(axv[0]));
+        queries.push(next_up(axv[n - 1]));
+    }
+    let sc = Scen1 { strat: Strat1::Spline(bc), ext: o.ext, ax: if default_axis { None } else { Some(axv) }, rows, trail, queries };
+    (sc, class.to_string())
+}
+
+/// coefficient arrays a, b (rows x lanes) read through the cfg hook
+pub fn spline_coeffs<E: Elem>(sc: &Scen1) -> Option<(Vec<Vec<Val>>, Vec<Vec<Val>>)> {
+    let bc = match &sc.strat {
+        Strat1::Spline(b) => b.clone(),
+        _ => return None,
+    };
+    let r = catch_unwind(AssertUnwindSafe(|| {
+        let data = make_data::<E>(&sc.rows, &sc.trail);
+        let boundary: BoundaryCondition<E, IxDyn> = match &bc {
+            Bc::NotAKnot => BoundaryCondition::NotAKnot,
+            Bc::Natural => BoundaryCondition::Natural,
+            Bc::Clamped => BoundaryCondition::Clamped,
+            Bc::Periodic => BoundaryCondition::Periodic,
+            Bc::Individual(rbs, shape) => {
+                let one = Scen1 { strat: Strat1::Linear, ext: false, ax: None, rows: vec![], trail: vec![], queries: vec![] };
+                let _ = one;
+                let v: Vec<RowBoundary<E>> = rbs.iter().map(crate::scen::rowbc_pub::<E>).collect();
+                BoundaryCondition::Individual(ndarray::ArrayD::from_shape_vec(IxDyn(shape), v).unwrap())
+            }
+        };
+        let strat = CubicSpline::new().extrapolate(sc.ext).boundary(boundary);
+        let x = Array1::from(sc.axis_vals().iter().map(|&v| E::of_f64(v)).collect::<Vec<_>>());
+        let interp = Interp1DBuilder::new(data).x(x).strategy(strat).build().ok()?;
+        let (a, b) = interp.verif_strategy().verif_coefficients();
+        let lanes = sc.lanes();
+        let conv = |arr: &ndarray::ArrayD<E>| -> Vec<Vec<Val>> {
+            let flat: Vec<Val> = arr.iter().map(|v| v.to_val()).collect();
+            if lanes == 0 { vec![vec![]; arr.shape()[0]] } else { flat.chunks(lanes).map(|c| c.to_vec()).collect() }
+        };
+        Some((conv(a), conv(b)))
+    }));
+    r.ok().flatten()
+}
+
+fn rows_coq(rows: &[Vec<Val>]) -> String {
+    format!("[{}]", rows.iter().map(|r| format!("[{}]", r.iter().map(|v| v.to_coq_qc()).collect::<Vec<_>>().join("; "))).collect::<Vec<_>>().join("; "))
+}
+
+pub fn add_spline_coq(rep: &mut Report, kind: usize, sc: &Scen1, rx: &(BuildOut, Vec<Out>)) {
+    let (a, b) = spline_coeffs::<XRat>(sc).unwrap_or((vec![], vec![]));
+    let term = format!("({}, {}, ({}, {}))", sc.to_coq(&qc), outs_coq(&rx.0, &rx.1, &|v| v.to_coq_qc()), rows_coq(&a), rows_coq(&b));
+    rep.coq_case(kind, term, sc.to_json());
+}
+
+pub const SPLINE_KIND: (&str, &str) = ("spline_ok_qc", "(scen1 Qc * (bout * list (rout Qc)) * (list (list Qc) * list (list Qc)))");
+
+// ---------------------------------------------------------------- oracles on exact outputs
+
+/// per lane and interval: the cubic (in u = x - x_i) fitted through the implementation's own
+/// exact samples; None if the samples of an interval are not on one cubic
+pub struct Pieces {
+    pub coef: Vec<Vec<Vec<Val>>>, // [interval][lane] -> c0..c3
+}
+
+/// value of the exact output at query index qi, lane l
+fn outv(rx: &[Out], qi: usize, l: usize) -> Option<Val> {
+    match rx.get(qi) {
+        Some(Out::Ok(v)) => v.get(l).cloned(),
+        _ => None,
+    }
+}
+
+pub fn fit_pieces(sc: &Scen1, rx: &[Out]) -> Result<Pieces, String> {
+    let ax = vals(&sc.axis_vals());
+    let n = ax.len();
+    let lanes = sc.lanes();
+    let qv: Vec<Val> = sc.queries.iter().map(|&q| Val::from_f64(q)).collect();
+    let mut coef = vec![];
+    for i in 0..(n - 1) {
+        // queries inside [x_i, x_i+1]
+        let idxs: Vec<usize> = (0..qv.len()).filter(|&k| ax[i].le(&qv[k]) && qv[k].le(&ax[i + 1])).collect();
+        // distinct abscissae
+        let mut uniq: Vec<usize> = vec![];
+        for &k in &idxs {
+            if !uniq.iter().any(|&j| qv[j] == qv[k]) {
+                uniq.push(k);
+            }
+        }
+        if uniq.len() < 5 {
+            return Err(format!("interval {} has fewer than 5 samples", i));
+        }
+        let mut per_lane = vec![];
+        for l in 0..lanes {
+            let pts: Vec<(Val, Val)> = uniq.iter().map(|&k| (qv[k].sub(&ax[i]), outv(rx, k, l).unwrap_or(Val::NaN))).collect();
+            if pts.iter().any(|p| !p.1.is_fin()) {
+                return Err(format!("interval {} lane {}: a sample is not a finite number", i, l));
+            }
+            let c = fit_cubic(&[pts[0].clone(), pts[1].clone(), pts[2].clone(), pts[4].clone()]).ok_or("singular fit")?;
+            for p in &pts {
+                if poly_eval(&c, &p.0) != p.1 {
+                    return Err(format!("interval {} lane {}: samples are not on one cubic polynomial", i, l));
+                }
+            }
+            per_lane.push(c);
+        }
+        coef.push(per_lane);
+    }
+    Ok(Pieces { coef })
+}
+
+/// C02: knot values, C1, C2 at interior knots
+pub fn check_c02(sc: &Scen1, p: &Pieces) -> Result<(), String> {
+    let ax = vals(&sc.axis_vals());
+    let n = ax.len();
+    for l in 0..sc.lanes() {
+        for i in 0..(n - 1) {
+            let hh = ax[i + 1].sub(&ax[i]);
+            let c = &p.coef[i][l];
+            if poly_eval(c, &Val::int(0)) != Val::from_f64(sc.rows[i][l]) || poly_eval(c, &hh) != Val::from_f64(sc.rows[i + 1][l]) {
+                return Err(format!("lane {}: piece {} does not pass through its two data points", l, i));
+            }
+            if i + 2 < n {
+                let c2 = &p.coef[i + 1][l];
+                if poly_d1(c, &hh) != poly_d1(c2, &Val::int(0)) {
+                    return Err(format!("lane {}: first derivative jumps at knot {}", l, i + 1));
+                }
+                if poly_d2(c, &hh) != poly_d2(c2, &Val::int(0)) {
+                    return Err(format!("lane {}: second derivative jumps at knot {}", l, i + 1));
+                }
+            }
+        }
+    }
+    Ok(())
+}
+
+/// C03: the selected end conditions
+pub fn check_c03(sc: &Scen1, p: &Pieces) -> Result<(), String> {
+    let bc = match &sc.strat {
+        Strat1::Spline(b) => b,
+        _ => return Ok(()),
+    };
+    let ax = vals(&sc.axis_vals());
+    let n = ax.len();
+    let zero = Val::int(0);
+    for l in 0..sc.lanes() {
+        let first = &p.coef[0][l];
+        let last = &p.coef[n - 2][l];
+        let hl = ax[n - 1].sub(&ax[n - 2]);
+        match lane_conditions(bc, l) {
+            None => {
+                if poly_d1(first, &zero) != poly_d1(last, &hl) {
+                    return Err(format!("lane {}: Periodic but S' differs at the two ends", l));
+                }
+                if poly_d2(first, &zero) != poly_d2(last, &hl) {
+                    return Err(format!("lane {}: Periodic but S'' differs at the two ends", l));
+                }
+            }
+            Some((left, right)) => {
+                let chk = |side: &str, cond: &Single, d1: Val, d2: Val, c3a: &Val, c3b: &Val| -> Result<(), String> {
+                    match cond {
+                        Single::Natural if d2 != zero => Err(format!("lane {}: {} Natural but S'' = {}", l, side, d2.to_text())),
+                        Single::Clamped if d1 != zero => Err(format!("lane {}: {} Clamped but S' = {}", l, side, d1.to_text())),
+                        Single::FirstDeriv(v) if d1 != Val::from_f64(*v) => Err(format!("lane {}: {} FirstDeriv({}) but S' = {}", l, side, v, d1.to_text())),
+                        Single::SecondDeriv(v) if d2 != Val::from_f64(*v) => Err(format!("lane {}: {} SecondDeriv({}) but S'' = {}", l, side, v, d2.to_text())),
+                        Single::NotAKnot if c3a != c3b => Err(format!("lane {}: {} NotAKnot but the third derivative jumps at the neighbouring knot", l, side)),
+                        _ => Ok(()),
+                    }
+                };
+                if n == 3 && left == Single::NotAKnot && right == Single::NotAKnot {
+                    if first[3] != zero || last[3] != zero {
+                        return Err(format!("lane {}: 3 points, NotAKnot on both ends, but the pieces are not one parabola", l));
+                    }
+                }
+                let second = &p.coef[1.min(n - 2)][l];
+                let before_last = &p.coef[(n - 2).saturating_sub(1)][l];
+                chk("left", &left, poly_d1(first, &zero), poly_d2(first, &zero), &first[3], &second[3])?;
+                chk("right", &right, poly_d1(last, &hl), poly_d2(last, &hl), &last[3], &before_last[3])?;
+            }
+        }
+    }
+    Ok(())
+}
+
+/// scale for float comparisons: max|y| + span * |first-derivative values| + span^2 * |second..|
+fn spline_scale(sc: &Scen1) -> Val {
+    let mut m = Val::int(1);
+    for r in &sc.rows {
+        for &v in r {
+            m = vmax(&m, &Val::from_f64(v).abs());
+        }
+    }
+    let ax = sc.axis_vals();
+    let span = Val::from_f64(ax[ax.len() - 1] - ax[0]);
+    if let Strat1::Spline(Bc::Individual(rbs, _)) = &sc.strat {
+        for rb in rbs {
+            if let RowBc::Mixed(a, b) = rb {
+                for sb in [a, b] {
+                    match sb {
+                        Single::FirstDeriv(v) => m = vmax(&m, &Val::from_f64(*v).abs().mul(&span)),
+                        Single::SecondDeriv(v) => m = vmax(&m, &Val::from_f64(*v).abs().mul(&span).mul(&span)),
+                        _ => {}
+                    }
+                }
+            }
+        }
+    }
+    m
+}
+
+/// f64 / f32 runs follow the exact run (values within a loose relative bound; discrete outcome equal)
+pub fn check_float_follows(rep: &mut Report, sc: &Scen1, rx: &(BuildOut, Vec<Out>), what: &str) {
+    let scale = spline_scale(sc);
+    let ax = sc.axis_vals();
+    let span = ax[ax.len() - 1] - ax[0];
+    for (name, res, tol) in [("f64", sc.run::<f64>(), Val::from_f64((2.0f64).powi(-30))), ("f32", sc.run::<f32>(), Val::from_f64((2.0f64).powi(-10)))] {
+        rep.evaluations += 1;
+        if res.0 != rx.0 {
+            rep.fail(&format!("{} {}: build outcome {:?} differs from the exact run's {:?}", what, name, res.0, rx.0), sc.to_json());
+            continue;
+        }
+        for (qi, o) in res.1.iter().enumerate() {
+            match (o, &rx.1[qi]) {
+                (Out::Ok(v), Out::Ok(w)) => {
+                    // extrapolated values grow like distance^3
+                    let q = sc.queries[qi];
+                    let dist = if q < ax[0] { (ax[0] - q) / span } else if q > ax[ax.len() - 1] { (q - ax[ax.len() - 1]) / span } else { 0.0 };
+                    let grow = Val::from_f64((1.0 + dist).powi(3).ceil());
+                    for l in 0..w.len() {
+                        let b = tol.mul(&scale).mul(&grow).add(&tol.mul(&w[l].abs()));
+                        if !within(&v[l], &w[l], &b) {
+                            rep.fail(&format!("{} {}: value differs from the exact spline by more than the rounding bound", what, name),
+                                     obj(vec![("scenario", sc.to_json()), ("query", s(format!("{:?}", q))), ("got", s(v[l].to_text())), ("exact", s(w[l].to_text()))]));
+                            return;
+                        }
+                    }
+                }
+                (Out::Oob, Out::Oob) => {}
+                (a, b) => {
+                    rep.fail(&format!("{} {}: outcome {:?} but the exact run gives {:?}", what, name, a, b), sc.to_json());
+                    return;
+                }
+            }
+        }
+    }
+    let _ = (eps32(), eps64());
+}
+
+fn bc_label(bc: &Bc) -> String {
+    match bc {
+        Bc::Individual(v, _) => {
+            if v.iter().any(|r| matches!(r, RowBc::Mixed(..))) { "Individual(Mixed)".into() } else { "Individual".into() }
+        }
+        b => format!("{:?}", b),
+    }
+}
+
+/// shared by C02 / C03: generated scenarios, all boundary kinds
+fn run_c02_c03(cfg: &Cfg, prop: &str) {
+    let mut rep = Report::new(prop, &cfg.out);
+    let kind = rep.kind(SPLINE_KIND.0, SPLINE_KIND.1);
+    rep.shard_size = 0;
+    let mut rng = Rng::new(cfg.seed ^ if prop == "C03" { 0x33 } else { 0 });
+    let thorough = cfg.tier == "thorough";
+    let mut cases: Vec<(Scen1, String)> = vec![];
+    // regression corpus first: the non-uniform axis on which the right NotAKnot row was wrong
+    {
+        let axv = vec![0.0, 1.0, 3.0, 4.0, 8.0];
+        let cubic = |x: f64| 1.0 + 2.0 * x - 0.5 * x * x + 0.25 * x * x * x;
+        let rows = axv.iter().map(|&x| vec![cubic(x)]).collect();
+        let mut queries = vec![];
+        for w in axv.windows(2) {
+            for t in [0.0, 0.25, 0.5, 0.75, 1.0] {
+                queries.push(w[0] + (w[1] - w[0]) * t);
+            }
+        }
+        cases.push((Scen1 { strat: Strat1::Spline(Bc::NotAKnot), ext: false, ax: Some(axv), rows, trail: vec![], queries }, "corpus:F1".into()));
+    }
+    if prop == "C03" {
+        // every ordered pair (left, right) of the five single-end conditions, n = 3, 4, 6
+        let singles = |rng: &mut Rng| vec![Single::NotAKnot, Single::Natural, Single::Clamped,
+                                           Single::FirstDeriv(rng.range(-8, 8) as f64 * 0.5), Single::SecondDeriv(rng.range(-8, 8) as f64 * 0.5)];
+        for &n in &[3usize, 4, 6] {
+            let ls = singles(&mut rng);
+            for l in &ls {
+                let rs = singles(&mut rng);
+                for r in &rs {
+                    let bc = Bc::Individual(vec![RowBc::Mixed(l.clone(), r.clone())], vec![1]);
+                    let o = SplineOpts { nmax: n, ext: false, allow_periodic: false, force_bc: Some(bc.clone()), outside: false };
+                    let (mut sc, class) = gen_spline_scen(&mut rng, &o);
+                    // force n and a single lane
+                    let (axv, _) = gen_spline_axis(&mut rng, n);
+                    sc.rows = gen_rows(&mut rng, n, 1, true);
+                    sc.trail = vec![];
+                    sc.strat = Strat1::Spline(Bc::Individual(vec![RowBc::Mixed(l.clone(), r.clone())], vec![1]));
+                    sc.queries.clear();
+                    for w in axv.windows(2) {
+                        for t in [0.0, 0.25, 0.5, 0.75, 1.0] {
+                            sc.queries.push(w[0] + (w[1] - w[0]) * t);
+                        }
+                    }
+                    sc.ax = Some(axv);
+                    cases.push((sc, format!("pair:{}", class)));
+                }
+            }
+        }
+    }
+    let nrand = if thorough { 4000 } else { 260 };
+    let o = SplineOpts { nmax: if thorough { 40 } else { 12 }, ext: false, allow_periodic: true, force_bc: None, outside: false };
+    for _ in 0..nrand {
+        cases.push(gen_spline_scen(&mut rng, &o));
+    }
+    for (ci, (sc, class)) in cases.iter().enumerate() {
+        let bc = match &sc.strat { Strat1::Spline(b) => b.clone(), _ => unreachable!() };
+        rep.count(&format!("axis:{}", class));
+        rep.count(&format!("bc:{}", bc_label(&bc)));
+        rep.count(&format!("n:{}", match sc.n() { 3 => "3", 4 => "4", 5..=8 => "5-8", 9..=16 => "9-16", _ => "17+" }));
+        rep.count(&format!("trailing_rank:{}", sc.trail.len()));
+        arena_reset();
+        let rx = sc.run::<XRat>();
+        rep.eval(Some(&format!("{:?}", sc)));
+        if rx.0 != BuildOut::Built {
+            rep.fail(&format!("build failed on valid spline input: {:?}", rx.0), sc.to_json());
+            continue;
+        }
+        match fit_pieces(sc, &rx.1) {
+            Err(e) => rep.fail(&format!("exact run: {}", e), sc.to_json()),
+            Ok(p) => {
+                if let Err(e) = check_c02(sc, &p) {
+                    if prop == "C02" { rep.fail(&format!("exact run: {}", e), sc.to_json()); }
+                }
+                if let Err(e) = check_c03(sc, &p) {
+                    if prop == "C03" { rep.fail(&format!("exact run: {}", e), sc.to_json()); }
+                }
+            }
+        }
+        add_spline_coq(&mut rep, kind, sc, &rx);
+        check_float_follows(&mut rep, sc, &rx, prop);
+        if ci == 1 || ci == 40 {
+            rep.sample(obj(vec![("scenario", sc.to_json()), ("exact_results_first3", J::A(rx.1.iter().take(3).map(out_json).collect()))]));
+        }
+    }
+    rep.finish("cubic-spline scenarios: n = 3, 4, 5 and up to the tier's bound, axes unit / uniform / random / mesh ratio up to 64 / geometric / default, all boundary selections (NotAKnot, Natural, Clamped, Periodic, Individual with random Mixed pairs and derivative values; for C03 additionally every ordered pair of the five single-end conditions at n = 3, 4, 6), 0-3 trailing axes, 5 abscissae per interval; exact run: coefficients a,b and values compared with the model in Coq, oracle = cubic fitted through the implementation's own exact samples (on one cubic, knot values, S' and S'' continuous, end conditions); f64/f32 within 2^-30 / 2^-10 of the exact values; non-trivial = distinct scenario");
+}
+
+pub fn run_c02(cfg: &Cfg) {
+    run_c02_c03(cfg, "C02");
+}
+pub fn run_c03(cfg: &Cfg) {
+    run_c02_c03(cfg, "C03");
+}
+
+// ---------------------------------------------------------------- C06 spline part
+pub fn c06_spline(rep: &mut Report, rng: &mut Rng, thorough: bool, ncases: usize) {
+    let kind = rep.kind(SPLINE_KIND.0, SPLINE_KIND.1);
+    let o = SplineOpts { nmax: if thorough { 16 } else { 8 }, ext: true, allow_periodic: false, force_bc: None, outside: true };
+    for ci in 0..ncases {
+        let (sc, class) = gen_spline_scen(rng, &o);
+        rep.count(&format!("spline:{}", class));
+        arena_reset();
+        let rx = sc.run::<XRat>();
+        rep.eval(Some(&format!("{:?}", sc)));
+        if rx.0 != BuildOut::Built {
+            rep.fail(&format!("build failed on valid spline input: {:?}", rx.0), sc.to_json());
+            continue;
+        }
+        // the end cubics fitted from in-range samples, evaluated outside
+        match fit_pieces(&sc, &rx.1) {
+            Err(e) => rep.fail(&format!("exact run: {}", e), sc.to_json()),
+            Ok(p) => {
+                let ax = vals(&sc.axis_vals());
+                let n = ax.len();
+                for (qi, &q) in sc.queries.iter().enumerate() {
+                    let qv = Val::from_f64(q);
+                    let piece = if qv.lt(&ax[0]) { 0 } else if ax[n - 1].lt(&qv) { n - 2 } else { continue };
+                    rep.count("spline:queries-outside");
+                    for l in 0..sc.lanes() {
+                        let want = poly_eval(&p.coef[piece][l], &qv.sub(&ax[piece]));
+                        match &rx.1[qi] {
+                            Out::Ok(v) if v[l] == want => {}
+                            other => {
+                                rep.fail("extrapolated value is not the end cubic evaluated at the query (exact run)",
+                                         obj(vec![("scenario", sc.to_json()), ("query", s(format!("{:?}", q))), ("got", out_json(other)), ("want", s(want.to_text()))]));
+                                break;
+                            }
+                        }
+                    }
+                }
+            }
+        }
+        add_spline_coq(rep, kind, &sc, &rx);
+        check_float_follows(rep, &sc, &rx, "C06 spline");
+        // inside the range: bit-identical with extrapolation off (f64)
+        let on = sc.run::<f64>();
+        let mut offs = sc.clone();
+        offs.ext = false;
+        let off = offs.run::<f64>();
+        let ax = sc.axis_vals();
+        for (qi, &q) in sc.queries.iter().enumerate() {
+            let inside = q >= ax[0] && q <= ax[ax.len() - 1];
+            if inside && on.1.get(qi) != off.1.get(qi) {
+                rep.fail("spline result inside the range differs between extrapolate(true) and extrapolate(false)", sc.to_json());
+                break;
+            }
+            if !inside && off.1.get(qi) != Some(&Out::Oob) {
+                rep.fail("spline: query outside the range answered without extrapolation", sc.to_json());
+                break;
+            }
+        }
+        if ci == 0 {
+            rep.sample(obj(vec![("scenario", sc.to_json())]));
+        }
+    }
+    let _ = bracket_scan;
+}
